@@ -56,6 +56,28 @@ def run(R):
                      "division has a non-zero constant divisor or is dominated by a test of the divisor against zero (weights may be "
                      "0 or 1 exactly: a quotient by `1 - p` is NaN for a certain seed and silently drops its derivative)")
     r5_r6(R)
+    R.rule("C07-R8", "decision nodes are built only through the canonicalising path: the raw node constructor is called from normalize_to "
+                     "(wrapping for a higher vtree node) only, unique_d (compress + trim + unique table) from apply_same_vtree, negate and "
+                     "normalize_to only, and compress from unique_d only - a shortcut that assembles a partition elsewhere bypasses the "
+                     "vtree-position, compression and trimming rules that make equal functions get equal handles")
+    WHO = {"make_decision_raw": {"normalize_to"}, "try_make_decision_raw": {"try_normalize_to"},
+           "unique_d": {"apply_same_vtree", "negate", "normalize_to"}, "try_unique_d": {"try_apply_same_vtree", "try_negate", "try_normalize_to"},
+           "compress": {"unique_d"}, "try_compress": {"try_unique_d"}}
+    seenw = {}
+    for b in prog.bodies.values():
+        if b.crate != "shared" or "::tests::" in b.key:
+            continue
+        for c in b.calls():
+            if c.name() in WHO and "sdd::" in (c.key or ""):
+                root = prog.bodies.get(b.root) if b.is_closure else b
+                seenw.setdefault(c.name(), set()).add((root.name if root else b.name, b.where(c.ln)))
+    for tgt, allowed in sorted(WHO.items()):
+        callers = seenw.get(tgt, set())
+        R.ob("C07-R8", "called:" + tgt, "%s is called (by %s)" % (tgt, sorted(n for n, w in callers)), len(callers) >= 1)
+        for nm, where in sorted(callers):
+            R.ob("C07-R8", "caller:%s:%s" % (tgt, nm), "%s is called by %s, one of %s" % (tgt, nm, sorted(allowed)), nm in allowed, where=where,
+                 detail=None if nm in allowed else "a node assembled outside the canonicalising path can have its prime and sub on the wrong sides of the "
+                 "vtree (or be uncompressed): later operations on it denote wrong functions and equal functions get different handles")
     R.rule("C07-R7", "budget exhaustion propagates: in every budgeted operation of the manager the failure edge of a budgeted step never leads to "
                      "an Ok return - an operation interrupted part-way reports exhaustion instead of handing back a partially built diagram")
     import c08
